@@ -22,11 +22,13 @@ META = {
     "text": "Starting from the variable leaves in every operand form (raw label, dict, PUBO, PCBO, PUBOMatrix; QUBO/QUBOMatrix in the 2-variable run), "
             "every gate is applied to every pair of discovered states until no new (type, dict) state appears: all expression trees of ANY depth with gates "
             "of arity <= 2 over 2 (quick) / 3 (thorough) variables are covered by induction; 3- and 4-ary applications are enumerated over leaves and "
-            "negated leaves. Each application's result table must equal the gate's truth function of the operand tables and operands must be unchanged.",
+            "negated leaves. Each application's result table must equal the gate's truth function of the operand tables and operands must be unchanged. "
+            "Unary and leaf-level applications (thorough: all) are built a second time after the first result was edited in place: same result, operands unmoved.",
     "note": "Bounded: <=3 variables; arity >2 only on leaf-level operands. The closure argument relies on gate results depending only on the operands' (type, dict), "
             "which the search itself validates by rebuilding every state from its witness expression.",
 }
 
+RECHECK_ALL = False      # thorough: every application is re-built after its result was edited in place
 GATES1 = ["BUFFER", "NOT"]
 GATESN = ["AND", "NAND", "OR", "NOR", "XOR", "XNOR"]
 
@@ -76,7 +78,7 @@ def state_key(obj):
     return ("label", obj)
 
 
-def apply_gate(g, exprs, labels, st, cache):
+def apply_gate(g, exprs, labels, st, cache, recheck=False):
     """Apply gate g to the states denoted by exprs; returns (key, violations)."""
     qv = paths.import_qubovert()
     ops = []
@@ -118,6 +120,20 @@ def apply_gate(g, exprs, labels, st, cache):
             cache.pop(repr(e), None)
     if any(r is o for o in ops):
         v("aliased-result", "the result is one of the operands (not a new model)")
+    if not viol and recheck:
+        # the result belongs to the caller: edit it in place (the usual `H = OR(a); H += ...; H *= 3` idiom), then build the same
+        # expression again -- it must come out as before, and the operands must not have moved
+        first = snap(r)
+        r2, _w = call(lambda: (r.__iadd__(getattr(qv.sat, "AND")(*labels[:2])), r.__imul__(3), r.__setitem__((labels[0],), 7)))
+        again, _w = call(getattr(qv.sat, g), *ops)
+        st.transitions += 1
+        if isinstance(again, Raised) or snap(again) != first:
+            v("stale-after-result-edited", "after the first result was edited in place, building the same expression again gives %s instead of %s"
+              % (short(again if isinstance(again, Raised) else dict(again)), short(first)))
+        if [snap(o) for o in ops] != before:
+            v("operand-mutated", "an operand changed when the RESULT was edited in place")
+            for e in exprs:
+                cache.pop(repr(e), None)
     return (state_key(r) if not viol else None), viol, expr
 
 
@@ -163,7 +179,8 @@ def closure(ctx, nvars, scheme, forms, label):
                 else:
                     apps = [(g, [wit[t[1]], wit[t[2]]]) for g in GATESN]
                 for g, exprs in apps:
-                    k, viol, expr = apply_gate(g, exprs, labels, ws, cache)
+                    k, viol, expr = apply_gate(g, exprs, labels, ws, cache,
+                                               recheck=RECHECK_ALL or len(exprs) == 1 or all(e[0] == "leaf" for e in exprs))
                     ws.evaluations += 1
                     for sig, msg in viol:
                         ws.violation(sig, {"nvars": nvars, "scheme": scheme, "expr": expr}, msg)
@@ -210,7 +227,7 @@ def nary(ctx, nvars, scheme, forms, label):
         ws = Stats()
         cache = {}
         for g, exprs in chunk:
-            k, viol, expr = apply_gate(g, exprs, labels, ws, cache)
+            k, viol, expr = apply_gate(g, exprs, labels, ws, cache, recheck=True)
             ws.evaluations += 1
             ws.states += 1
             for sig, msg in viol:
@@ -222,6 +239,8 @@ def nary(ctx, nvars, scheme, forms, label):
 
 
 def run(ctx):
+    global RECHECK_ALL
+    RECHECK_ALL = not ctx.quick
     runs = [(2, "int", ["label", "dict", "PUBO", "PCBO", "PUBOMatrix", "QUBO", "QUBOMatrix"], "2var-int"),
             (2, "str", ["label", "dict", "PUBO", "PCBO", "QUBO"], "2var-str"),
             (2, "tuple", ["label", "dict", "PUBO", "PCBO"], "2var-tuple-labels")]
@@ -251,7 +270,7 @@ def replay(case):
         for e in expr[1:]:
             walk(e)
         st = Stats()
-        k, viol, _ = apply_gate(expr[0], expr[1:], labels, st, {})
+        k, viol, _ = apply_gate(expr[0], expr[1:], labels, st, {}, recheck=True)
         out.extend(viol)
     walk(case["expr"])
     # report innermost first; duplicates removed
